@@ -25,6 +25,7 @@ decoder rebuilds the set through the hash oracle; iteration order ≠ storage or
 import CtyModel.Lemmas.JsonValRT
 import CtyModel.Lemmas.JsonValReject
 import CtyModel.Lemmas.JsonValDoc
+import CtyModel.Lemmas.JsonValMirror
 namespace CtyModel
 namespace C15
 open Ty JsonVal
@@ -118,6 +119,20 @@ theorem mirror (env : JEnv) (top : Bool) (v : Value)
   have h' := h
   simp only [rtHyps, Bool.and_eq_true] at h'
   exact roundtrip_partial env top v v.ty h hs (exact_self v.ty v.v h'.1.1.1.1.1.1.1.1.1.2 h'.1.1.1.1.1.1.1.2)
+
+/-- "the bytes are valid JSON whose plain decoding mirrors the value's structure": against
+its own placeholder-free type a set-free value is encoded without any wrapper object —
+null as null, a bool / string as itself, a number as its decimal text, a list or tuple as
+an array with one entry per element in order, a map or object as an object with exactly
+the value's keys.  (That the bytes ARE valid JSON is checked on the real output on every
+run: the harness lexes them with `encoding/json`.) -/
+theorem mirror_structure (env : JEnv) (v : Value) (j : Json) (hd : hasDyn v.ty = false)
+    (hs : setFree v.ty = true) (hw : wfP v.ty v.v = true) (hk : v.v.whollyKnown = true)
+    (hm : v.v.containsMarked = false) (hj : marshal env v v.ty = .ok j) : mirrors v.v j = true := by
+  unfold marshal at hj
+  rw [marshalEntry_same v.ty v.v _ (isMarked_of_containsMarked hm)
+    (isKnown_of_whollyKnown hk (isMarked_of_containsMarked hm))] at hj
+  exact mirror_known env v.v v.ty j ⟨hd, hs, hw, hk, hm⟩ hj
 
 /-! ## Values JSON cannot represent -/
 
@@ -239,6 +254,13 @@ theorem implied_type_shape (env : JEnv) (j : Json) :
 /-- for the documents of `doc_roundtrip_partial` the implied type is the structural type -/
 theorem implied_type_structural (env : JEnv) (d : Json) (h : docOK env d = true) :
     impliedType env d = .ok (structTy d) := (doc_roundtrip_partial env true d h).1
+
+/-- `SimpleJSONValue.UnmarshalJSON` (implied type, then `Unmarshal` with it) succeeds on
+those documents and returns a value of the structural type -/
+theorem simple_unmarshal_typed (env : JEnv) (d : Json) (h : docOK env d = true) :
+    ∃ v, simpleUnmarshal env d = .ok v ∧ v.ty = structTy d := by
+  obtain ⟨hi, v, _, hu, hty, _, _⟩ := doc_roundtrip_partial env true d h
+  exact ⟨v, by simp [simpleUnmarshal, hi, hu], hty⟩
 
 /-! ## Non-vacuity -/
 
